@@ -866,13 +866,13 @@ pub fn stages(ctx: &Ctx) -> Vec<Stage> {
         let c = gen_calc(&mut rng, complex, deg);
         run_calc_dyn(rep, &c);
     }));
-    st.push(Stage::new("calculus", tier.pick(20_000, 200_000), move |i, rep| {
+    st.push(Stage::new("calculus", tier.pick(20_000, 1_000_000), move |i, rep| {
         let mut rng = Rng::for_case(seed, "c13-calc", i);
         let deg = if rng.chance(0.15) { rng.below(3) } else { rng.below(31) };
         let c = gen_calc(&mut rng, i % 2 == 1, deg);
         run_calc_dyn(rep, &c);
     }));
-    st.push(Stage::new("history", tier.pick(16_000, 150_000), move |i, rep| {
+    st.push(Stage::new("history", tier.pick(16_000, 1_000_000), move |i, rep| {
         let mut rng = Rng::for_case(seed, "c13-history", i);
         let h = gen_hist(&mut rng, i % 2 == 1);
         run_hist_dyn(rep, &h);
